@@ -752,7 +752,9 @@ def _run_tree(case):
     nc.REGISTRY["v"] = CtlExe(sched, True, bool(case["snap"]), case["pickler"], pokes)
     root = case["root"]
     top = _build(root, "w" if root["t"] == "wf" else "top", gate_path, True, env)
-    twin = _build(root, "w" if root["t"] == "wf" else "top", gate_path, False, env)
+    open_gate = gate_path + ".open"
+    open(open_gate, "w").close()
+    twin = _build(root, "w" if root["t"] == "wf" else "top", open_gate, False, env)
     gated = any(nd["t"] == "fn" and nd["fid"] == 40 for _p, nd in walk(root)) and root["exe"] in REAL
     if not gated:
         open(gate_path, "w").close()  # nothing has to be kept out by the gate
